@@ -288,6 +288,9 @@ KEYWORDS = set('if for while switch return sizeof catch throw new delete static_
 TOK = re.compile(r'[A-Za-z_]\w*|::|->|\.\.\.|\d[\w.]*|\S')
 
 
+DEFINES = {}      # NAME -> 0/1 for object-like macros defined once to 0 or 1 anywhere in the tree (filled by build_inventory)
+
+
 def strip_source(txt):
     out = []; i = 0; n = len(txt)
     while i < n:
@@ -334,7 +337,12 @@ def strip_source(txt):
                 dead = None
                 if d.startswith('ifdef'): dead = True if 'DEBUG' in expr else None
                 elif d.startswith('ifndef'): dead = False if 'DEBUG' in expr else None
-                else: dead = True if ('DEBUG' in expr or expr.strip() == '0') else None
+                else:
+                    e = expr.strip()
+                    dead = True if ('DEBUG' in e or e == '0') else None
+                    if dead is None and re.match(r'!?\s*[A-Za-z_]\w*$', e):
+                        nm = e.lstrip('! ').strip()
+                        if nm in DEFINES: dead = (DEFINES[nm] == 0) != e.startswith('!')
                 stack.append(dead)
             elif d.startswith('else') or d.startswith('elif'):
                 if stack and stack[-1] is not None: stack[-1] = not stack[-1] if d.startswith('else') else None
@@ -563,6 +571,12 @@ def build_inventory(repo):
             for f in sorted(fn):
                 if f.endswith(('.cpp', '.h', '.inl', '.hpp')): files.append(os.path.join(dp, f))
     files.sort()
+    DEFINES.clear(); seen = {}
+    for p in files:
+        for m in re.finditer(r'^[ \t]*#[ \t]*define[ \t]+([A-Za-z_]\w*)[ \t]+([01])[ \t]*$', open(p, errors='replace').read(), re.M):
+            seen.setdefault(m.group(1), set()).add(int(m.group(2)))
+    for nm, vals in seen.items():
+        if len(vals) == 1: DEFINES[nm] = vals.pop()
     with ThreadPoolExecutor(max_workers=1) as ex:
         scans = [scan_file(p, os.path.relpath(p, repo)) for p in files]
     funcs = []; classes = {}; statics = set(); nonstatics = set()
@@ -1206,9 +1220,22 @@ def run(ctx):
                                                detail='checkpoint %s:%d was polled under %s at run time but is not statically reachable from it: the catch inventory may be incomplete' % (s['file'], s['line'], ent)))
                     if s: break
     ctx.notes['checkpoint_sites_reached'] = sorted('%s:%d (%d cases)' % (f, l, n) for (f, l), n in reached.items())
-    ctx.notes['checkpoint_sites_not_reached'] = sorted('%s:%d %s' % (s['file'], s['line'], s['func']) for s in inv['sites'] if (s['file'], s['line']) not in reached)
+    redges = {}
+    for a, bs in inv['edges'].items():
+        for b in bs: redges.setdefault(b, set()).add(a)
+    ent_ids = {e['fid'] for e in inv['entries']}
+    unreachable = set()
+    for f in inv['funcs']:
+        if f['polls'] and not (inv['closure']([f['id']], redges) & ent_ids):
+            for l in f['polls']: unreachable.add((f['file'], l))
+    ctx.notes['checkpoint_sites_not_reachable_from_the_C_API (static call graph)'] = sorted('%s:%d' % x for x in unreachable)
+    missed = [s for s in inv['sites'] if (s['file'], s['line']) not in reached and (s['file'], s['line']) not in unreachable]
+    ctx.notes['checkpoint_sites_not_reached'] = sorted('%s:%d %s' % (s['file'], s['line'], s['func']) for s in missed)
+    if missed and not ctx.replay:
+        ctx.broken.append(dict(kind='generator', name='checkpoint coverage', detail='checkpoint sites reachable from the C API but never polled by the generated cases: %s'
+                               % ', '.join('%s:%d' % (s['file'], s['line']) for s in missed)))
     ctx.notes['distribution'] = dist
-    ctx.log('sites reached %d/%d; steps %d' % (len(reached), len(inv['sites']), steps))
+    ctx.log('sites reached %d/%d (%d not reachable from the C API); steps %d' % (len(reached), len(inv['sites']), len(unreachable), steps))
     # ---------------- self-check of the generators: every operation family named by the property was enumerated with N >= 1
     if not ctx.replay:
         for grp, ops in REQUIRED_GROUPS.items():
